@@ -565,11 +565,13 @@ fn emit(st: &RefCell<St>, kind: u8, describe: bool, form: usize) {
 pub fn run(a: &Args) -> Option<Report> {
     match a.leg.as_str() {
         "late-global" => return Some(run_late_global(a)),
+        "global-race" => return Some(run_global_race(a)),
         "native" | "native-global" | "asan" | "miri" => {}
         _ => return None,
     }
     rt::quiet_panics();
     let mut rep = Report::new("C01", &a.leg, a.seed);
+    guard_thread_affinity(&mut rep);
     let mut r = Rng::new(a.shard_seed());
     let miri = cfg!(miri);
     let real_free = a.leg == "asan" || a.leg == "miri";
@@ -689,6 +691,67 @@ pub fn run(a: &Args) -> Option<Report> {
 /// One process = one trial: threads emit before any global recorder exists (no-op), a global recorder is then
 /// installed, and the same threads (as well as fresh ones) emit again: every emission outside a local scope made after
 /// the installation returned must reach the global recorder, local scopes still win, and earlier ones reach nothing.
+// ------------------------------------------------------------------------------------------
+// The guard of a thread-local installation must not be able to leave its thread: all bookkeeping is per thread, so a
+// guard dropped elsewhere would leave its recorder installed after its end and end somebody else's scope. This is a
+// property of the type; it is observed here without failing to compile either way (an inherent method that exists only
+// for Send types shadows a trait method of the same name).
+// ------------------------------------------------------------------------------------------
+struct SendProbe<T>(std::marker::PhantomData<T>);
+trait NotSendFallback {
+    fn can_cross_threads(&self) -> bool {
+        false
+    }
+}
+impl<T> NotSendFallback for SendProbe<T> {}
+impl<T: Send> SendProbe<T> {
+    fn can_cross_threads(&self) -> bool {
+        true
+    }
+}
+
+fn guard_thread_affinity(rep: &mut Report) {
+    let sendable = SendProbe::<metrics::LocalRecorderGuard<'static>>(std::marker::PhantomData).can_cross_threads();
+    rep.case(mix(0xC01, sendable as u64), true);
+    if sendable {
+        rep.violation("C01:guard-can-leave-its-thread", jo! {"what" => "LocalRecorderGuard is Send: a guard moved to and dropped on another thread leaves its recorder installed on the creating thread after the guard's end and removes an installation of the thread it is dropped on"});
+    }
+}
+
+/// Miri / TSan: an emission on a thread without a local recorder racing the installation of the global recorder, with
+/// no synchronisation from the harness: the tool decides (data race on the cell's slot), the log only has to be sane.
+fn run_global_race(a: &Args) -> Report {
+    let mut rep = Report::new("C01", &a.leg, a.seed);
+    let log = doubles::new_log();
+    let g = LogRecorder::new(0, &log);
+    let emitters: Vec<_> = (0..2)
+        .map(|_| {
+            std::thread::spawn(|| {
+                let mut n = 0u64;
+                for _ in 0..if cfg!(miri) { 12 } else { 20_000 } {
+                    let _ = metrics::counter!("raced");
+                    n += 1;
+                    std::thread::yield_now();
+                }
+                n
+            })
+        })
+        .collect();
+    std::thread::yield_now();
+    let installed = metrics::set_global_recorder(g).is_ok();
+    let mut emitted = 0u64;
+    for e in emitters {
+        emitted += e.join().unwrap_or(0);
+    }
+    let delivered = doubles::take_log(&log).len() as u64;
+    rep.case(mix(emitted, delivered), true);
+    if !installed || delivered > emitted {
+        rep.violation("C01:wrong-recorder", jo! {"what" => "global installation failed in a fresh process, or more deliveries than emissions", "installed" => installed, "emitted" => emitted, "delivered" => delivered});
+    }
+    rep.sample(jo! {"global_install_raced_by_emitters" => true, "emitted" => emitted, "delivered_after_install" => delivered});
+    rep
+}
+
 fn run_late_global(a: &Args) -> Report {
     let mut rep = Report::new("C01", &a.leg, a.seed);
     let mut r = Rng::new(a.shard_seed());
